@@ -1,11 +1,11 @@
-//go:build internaltie
+//go:build verif
 
 package main
 
 import "github.com/scrapli/scrapligo/util"
 
 // c07InstallHook plugs the schedule controller into scrapligo's `verif` yield points. It lives
-// behind the `internaltie` tag so the harness still builds against a tree without the hooks.
+// behind the `verif` tag, like the hooks themselves (they are part of the scrapligo baseline now).
 func c07InstallHook(f func(string)) bool {
 	util.VerifYield = f
 	return true
